@@ -50,7 +50,8 @@ def content(kind, ver):
         return ('{"logFolder":"/var/log/azure-proxy-agent","pollKeyStatusIntervalInSeconds":1%s%s}\n' % ({"A": 5, "B": 7}[ver], "" if ver == "A" else ',"hostGAPluginSupport":2,"ebpfProgramName":"ebpf_cgroup.o"')).encode()
     if kind == "ebpf":
         return b"\x7fELF-ebpf-object-version-" + ver.encode() + b"\x00" * (96 if ver == "A" else 64) + b"end-of-object-" + ver.encode()
-    return ("[Unit]\nDescription=Azure Proxy Agent %s\n[Service]\nExecStart=/usr/sbin/azure-proxy-agent\n" % ver).encode()
+    # (version B's unit has one CR LF line ending: "byte-identical" includes line endings)
+    return ("[Unit]\nDescription=Azure Proxy Agent %s%s\n[Service]\nExecStart=/usr/sbin/azure-proxy-agent\n" % (ver, " " if ver == "A" else "\r")).encode()
 
 
 VER_OF = {}
@@ -174,7 +175,13 @@ def systemctl_log():
     if os.path.exists(SYSTEMCTL_LOG):
         for line in open(SYSTEMCTL_LOG):
             parts = line.rstrip("\n").split("|")
-            out.append((parts[0].split()[0] if parts[0] else "?", tuple(x if x else None for x in parts[1:5])))
+            words = parts[0].split()
+            verb = next((w for w in words if not w.startswith("-")), "?")
+            # documented systemctl semantics: with --no-block the call returns once the job is queued, i.e. the
+            # service may still be running afterwards
+            if verb == "stop" and any(w in ("--no-block", "--job-mode=ignore-dependencies", "--no-wait") or w.startswith("--no-block") for w in words):
+                verb = "stop(asynchronous)"
+            out.append((verb, tuple(x if x else None for x in parts[1:5])))
     return out
 
 
@@ -323,7 +330,9 @@ def main():
                       % (cmd, s.sys, s.backup, s.pkg, obs.sys, obs.backup, want.sys, want.backup), case)
         log = systemctl_log()
         verbs = [v for v, _ in log]
-        if verbs != calls:
+        if "stop(asynchronous)" in verbs:
+            violation("service-not-stopped-before-files-replaced:" + cmd.split("-")[0], "%s asked systemctl to stop the service without waiting for it (--no-block): the files are replaced while the service may still be running" % cmd, case)
+        elif verbs != calls:
             violation("service-calls:" + cmd.split("-")[0], "%s made systemctl calls %s, expected %s" % (cmd, verbs, calls), case)
         else:
             # stopped before any file was replaced, started after the last one
